@@ -17,8 +17,8 @@ Trace == ndJsonDeserialize("trace.ndjson")
 MonRev  == 1..40
 MonProc == 0..4
 
-VARIABLES l, S, B, lab, pre, sum, ended, esum, creators
-mvars == <<l, S, B, lab, pre, sum, ended, esum, creators>>
+VARIABLES l, S, B, lab, pre, sum, ended, esum, creators, everDep
+mvars == <<l, S, B, lab, pre, sum, ended, esum, creators, everDep>>
 
 (* ----- JSON -> abstract state ------------------------------------------- *)
 
@@ -74,6 +74,7 @@ MonInit ==
   /\ sum = [p \in MonProc |-> NoSum]
   /\ ended = 0 /\ esum = NoSum
   /\ creators = [r \in MonRev |-> {}]
+  /\ everDep = {}
 
 FaultClass(e) == IF e.kind = "store" THEN "store" ELSE IF e.kind = "wait" THEN "wait" ELSE "res"
 
@@ -93,6 +94,10 @@ MonNext ==
                     ELSE IF e.ev \in {"end", "crash"} /\ \A q \in MonProc : (q # p => ~sum[q].active)
                          THEN [r \in MonRev |-> {}]
                     ELSE creators
+     \* which stored revisions have been seen deployed (a history handed to the scenario ready-made counts
+     \* its superseded revisions as once deployed); forgotten when the record is deleted
+     /\ everDep' = IF e.ev = "reset" THEN {r \in MonRev : ns.store[r].st \in {"deployed", "superseded"}}
+                   ELSE {r \in MonRev : ns.store[r].st # "none" /\ (r \in everDep \/ ns.store[r].st = "deployed")}
      /\ CASE e.ev = "reset" ->
                /\ pre' = [q \in MonProc |-> NoState] /\ sum' = [q \in MonProc |-> NoSum]
                /\ ended' = 0 /\ esum' = NoSum
@@ -168,6 +173,14 @@ P_C03_Error         == AtEnd => C03_Error(esum)
 P_C03_Failed        == AtEnd => C03_Failed(EPre, S, esum)
 P_C03_Cleanup       == AtEnd => C03_Cleanup(EPre, S, esum)
 P_C03_AtomicUpgrade == AtEnd => C03_AtomicUpgrade(EPre, S, esum)
+\* ... and the revision it restores is one that HAD BEEN deployed (monitor only: the ledger's statuses alone
+\* do not say so; everDep is what the trace showed).  The operation's own revisions are not in EPre.store.
+P_C03_AtomicTarget ==
+  (AtEnd /\ esum.u.kind = "upgrade" /\ esum.u.atomic /\ ~esum.u.dry /\ ClusterFault(esum) /\ ~esum.fsub /\ ~esum.ok /\ esum.crs # {}) =>
+    LET was == {r \in Revs(EPre.store) : r \in everDep /\ r \notin esum.crs}
+        top == MaxOr0(Revs(S.store)) IN
+    (was # {} /\ top # 0 /\ top \notin Revs(EPre.store) /\ S.store[top].st = "deployed") =>
+       S.store[top].man = EPre.store[MaxOf(was)].man
 P_C03_AtomicInstall == AtEnd => C03_AtomicInstall(EPre, S, esum)
 
 P_C06_ReadOnly == IsCall => C06_StepReadOnly(CurU, lab, [store |-> B.store, cluster |-> B.cluster], [store |-> S.store, cluster |-> S.cluster])
@@ -227,6 +240,7 @@ Checks == <<
   [n |-> "C03_Failed",        v |-> P_C03_Failed],
   [n |-> "C03_Cleanup",       v |-> P_C03_Cleanup],
   [n |-> "C03_AtomicUpgrade", v |-> P_C03_AtomicUpgrade],
+  [n |-> "C03_AtomicTarget",  v |-> P_C03_AtomicTarget],
   [n |-> "C03_AtomicInstall", v |-> P_C03_AtomicInstall],
   [n |-> "C06_ReadOnly",      v |-> P_C06_ReadOnly],
   [n |-> "C06_EndSame",       v |-> P_C06_EndSame],
@@ -248,7 +262,7 @@ Checks == <<
 \* (IF, not \/: in an action TLC would enumerate both disjuncts as separate successors)
 Report == \A i \in DOMAIN Checks : IF Checks[i].v THEN TRUE ELSE PrintT(<<"MONVIOL", l, Checks[i].n>>)
 
-MonStep == (MonNext /\ Report) \/ (l = Len(Trace) /\ l' = l + 1 /\ Report /\ UNCHANGED <<S, B, lab, pre, sum, ended, esum, creators>>)
+MonStep == (MonNext /\ Report) \/ (l = Len(Trace) /\ l' = l + 1 /\ Report /\ UNCHANGED <<S, B, lab, pre, sum, ended, esum, creators, everDep>>)
 
 MonSpec == MonInit /\ [][MonStep]_mvars
 
